@@ -494,6 +494,206 @@ pub struct AObs {
 }
 
 /// the reference conversation; `fault` = None measures the byte counts
+// ---------------------------------------------------------------------------------------------------------
+// Part E: the LISTENER side, on a session that accepts transactions (SessionAcceptor with a control-link
+// acceptor: the session engine then runs on the transactional session type).  A scripted client attaches as a
+// receiver, the listener's Sender has the outcome of a send_batchable() outstanding, and the client closes /
+// ends / goes away.  The outcome future and a later send() have to come back.
+
+#[derive(Debug, Clone, Copy, PartialEq, Eq, Hash)]
+pub enum EFlt {
+    PeerCloseErr,
+    PeerClose,
+    PeerEndErr,
+    PeerEnd,
+    Eof,
+    Reset,
+}
+pub const EFAULTS: [EFlt; 6] = [EFlt::PeerCloseErr, EFlt::PeerClose, EFlt::PeerEndErr, EFlt::PeerEnd, EFlt::Eof, EFlt::Reset];
+
+#[derive(Debug, Clone, Default)]
+pub struct EObs {
+    pub machinery: Option<String>,
+    pub outcome: String,
+    pub later_send: String,
+    pub trace: Vec<String>,
+}
+
+pub async fn scenario_e(txn_session: bool, flt: EFlt) -> EObs {
+    use fe2o3_amqp::transaction::coordinator::ControlLinkAcceptor;
+    use fe2o3_amqp_types::definitions::{ReceiverSettleMode, Role};
+    use fe2o3_amqp_types::messaging::{Source, Target};
+    use vlib::peer::{Peer, AMQP_HEADER};
+    let mut obs = EObs::default();
+    let (pipe, a, _b) = Pipe::new();
+    let (tx, mut rx) = tokio::sync::mpsc::unbounded_channel::<String>();
+    let lst = tokio::spawn(async move {
+        let acceptor = ConnectionAcceptor::new("listener");
+        let mut conn = match acceptor.accept(a).await {
+            Ok(c) => c,
+            Err(e) => {
+                let _ = tx.send(format!("MACHINERY accept: {e:?}"));
+                return;
+            }
+        };
+        let sacc = if txn_session { SessionAcceptor::builder().control_link_acceptor(ControlLinkAcceptor::default()).build() } else { SessionAcceptor::builder().build() };
+        let mut session = match sacc.accept(&mut conn).await {
+            Ok(s) => s,
+            Err(e) => {
+                let _ = tx.send(format!("MACHINERY session accept: {e:?}"));
+                return;
+            }
+        };
+        let mut sender = match LinkAcceptor::new().accept(&mut session).await {
+            Ok(LinkEndpoint::Sender(s)) => s,
+            other => {
+                let _ = tx.send(format!("MACHINERY link accept: {:?}", other.map(|_| "not a sender")));
+                return;
+            }
+        };
+        let fut = match sender.send_batchable("from the listener").await {
+            Ok(f) => f,
+            Err(e) => {
+                let _ = tx.send(format!("MACHINERY send_batchable: {e:?}"));
+                return;
+            }
+        };
+        let _ = tx.send("READY".to_string());
+        let r = tokio::time::timeout(Duration::from_secs(10), fut).await;
+        let _ = tx.send(format!("OUTCOME {}", match r { Err(_) => "HANGS".to_string(), Ok(Ok(o)) => format!("ok:{o:?}"), Ok(Err(e)) => format!("err:{e:?}") }));
+        let r = tokio::time::timeout(Duration::from_secs(10), sender.send("later")).await;
+        let _ = tx.send(format!("LATER {}", match r { Err(_) => "HANGS".to_string(), Ok(Ok(o)) => format!("ok:{o:?}"), Ok(Err(e)) => format!("err:{e:?}") }));
+        // keep the handles alive to the end: nothing is torn down by a drop
+        let _ = tokio::time::timeout(Duration::from_secs(5), conn.on_close()).await;
+        drop(sender);
+        drop(session);
+    });
+    let mut peer = Peer::new(pipe.clone(), 1, Auto::none());
+    peer.send_proto_header(AMQP_HEADER);
+    peer.send(0, Performative::Open(Open { container_id: "scripted-client".into(), hostname: None, max_frame_size: 4096.into(), channel_max: 10.into(), idle_time_out: None, outgoing_locales: None, incoming_locales: None, offered_capabilities: None, desired_capabilities: None, properties: None }));
+    settle(&mut peer, 2).await;
+    peer.send(0, Performative::Begin(Begin { remote_channel: None, next_outgoing_id: 0, incoming_window: 1000, outgoing_window: 1000, handle_max: Default::default(), offered_capabilities: None, desired_capabilities: None, properties: None }));
+    settle(&mut peer, 2).await;
+    peer.send(
+        0,
+        Performative::Attach(Attach {
+            name: "from-listener".into(),
+            handle: Handle(0),
+            role: Role::Receiver,
+            snd_settle_mode: SenderSettleMode::Unsettled,
+            rcv_settle_mode: ReceiverSettleMode::First,
+            source: Some(Box::new(Source::builder().address("q").build())),
+            target: Some(Box::new(Target::builder().address("client").build().into())),
+            unsettled: None,
+            incomplete_unsettled: false,
+            initial_delivery_count: None,
+            max_message_size: None,
+            offered_capabilities: None,
+            desired_capabilities: None,
+            properties: None,
+        }),
+    );
+    settle(&mut peer, 3).await;
+    let mut f = Flow { next_incoming_id: Some(0), incoming_window: 1000, next_outgoing_id: 0, outgoing_window: 1000, handle: Some(Handle(0)), delivery_count: Some(0), link_credit: Some(10), available: None, drain: false, echo: false, properties: None };
+    f.echo = false;
+    peer.send(0, Performative::Flow(f));
+    // wait for READY
+    let mut ready = false;
+    for _ in 0..20 {
+        settle(&mut peer, 1).await;
+        while let Ok(m) = rx.try_recv() {
+            if m == "READY" {
+                ready = true;
+            } else if m.starts_with("MACHINERY") {
+                obs.machinery = Some(m);
+            }
+        }
+        if ready || obs.machinery.is_some() {
+            break;
+        }
+    }
+    if !ready {
+        if obs.machinery.is_none() {
+            obs.machinery = Some(format!("part E: the listener never got as far as an outstanding batchable send; trace {:?}", trace_to_strings(&peer.trace)));
+        }
+        lst.abort();
+        return obs;
+    }
+    settle(&mut peer, 2).await;
+    let cond = || amqp_error(AmqpError::ResourceLimitExceeded, "scripted");
+    match flt {
+        EFlt::PeerCloseErr => peer.send(0, Performative::Close(Close { error: Some(cond()) })),
+        EFlt::PeerClose => peer.send(0, Performative::Close(Close { error: None })),
+        EFlt::PeerEndErr => peer.send(0, Performative::End(End { error: Some(cond()) })),
+        EFlt::PeerEnd => peer.send(0, Performative::End(End { error: None })),
+        EFlt::Eof => pipe.break_now(FaultMode::Eof),
+        EFlt::Reset => pipe.break_now(FaultMode::Reset),
+    }
+    // virtual time: the listener's own 10 s time-outs decide
+    for _ in 0..30 {
+        tokio::time::sleep(Duration::from_secs(1)).await;
+        peer.pump();
+        while let Ok(m) = rx.try_recv() {
+            if let Some(r) = m.strip_prefix("OUTCOME ") {
+                obs.outcome = r.to_string();
+            } else if let Some(r) = m.strip_prefix("LATER ") {
+                obs.later_send = r.to_string();
+            }
+        }
+        if !obs.later_send.is_empty() {
+            break;
+        }
+    }
+    obs.trace = trace_to_strings(&peer.trace);
+    lst.abort();
+    obs
+}
+
+fn judge_e(txn: bool, flt: EFlt, o: &EObs) -> Vec<(String, String)> {
+    let mut f = vec![];
+    let what = format!("listener session {} transactions, fault {:?}", if txn { "WITH" } else { "without" }, flt);
+    let tag = if txn { "txn-session" } else { "plain-session" };
+    if o.outcome.is_empty() || o.outcome == "HANGS" {
+        f.push((format!("listener-op-hangs op=batchable-outcome {tag} fault={flt:?}"), format!("{what}: the outcome of the listener's send_batchable() was still pending 10 s after the fault; trace {:?}", o.trace)));
+    } else if o.outcome.starts_with("ok:") {
+        f.push((format!("listener-op-ok-after-fault op=batchable-outcome {tag} fault={flt:?}"), format!("{what}: the delivery never got an outcome from the peer, yet the future resolved {}", o.outcome)));
+    }
+    if o.later_send.is_empty() || o.later_send == "HANGS" {
+        f.push((format!("listener-op-hangs op=send {tag} fault={flt:?}"), format!("{what}: a send() issued after the fault was still pending after 10 s")));
+    } else if o.later_send.starts_with("ok:") {
+        f.push((format!("listener-op-ok-after-fault op=send {tag} fault={flt:?}"), format!("{what}: a send() issued after the fault succeeded: {}", o.later_send)));
+    }
+    f
+}
+
+fn part_e(out: &mut Outcome) -> u64 {
+    let mut n = 0;
+    for txn in [true, false] {
+        for flt in EFAULTS {
+            let scen: Scenario<EObs> = Arc::new(move || Box::pin(scenario_e(txn, flt)));
+            let ex = run_exec(vec![], &RunCfg::none(), &scen);
+            n += 1;
+            let rj = json!({"part": "E", "txn_session": txn, "fault": format!("{:?}", flt)});
+            match ex.out {
+                None => out.machinery_errors.push(format!("part E scenario died: {:?}", ex.panics)),
+                Some(o) => {
+                    if let Some(m) = &o.machinery {
+                        out.machinery_errors.push(m.clone());
+                        continue;
+                    }
+                    for p in ex.panics.iter().filter(|p| !p.contains("vcheck/src")) {
+                        out.violation(format!("panic part E fault={flt:?}"), format!("a library task panicked: {p}"), rj.clone());
+                    }
+                    for (s, d) in judge_e(txn, flt, &o) {
+                        out.violation(s, d, rj.clone());
+                    }
+                }
+            }
+        }
+    }
+    n
+}
+
 pub async fn scenario_a(fault: Option<Fault>) -> AObs {
     let mut obs = AObs::default();
     let (pipe, a, b) = Pipe::new();
@@ -1129,6 +1329,9 @@ pub fn run(ctx: &Ctx) -> Outcome {
         }
     }
     samples.push(json!({"part": "A reference conversation", "client_ops": base_obs.ops, "bytes": base_obs.bytes}));
+    // ---- Part E: the listener's sender on a plain and on a transaction-enabled session
+    let n_e = part_e(&mut out);
+    out.set("part_e_listener_cases", n_e);
     // ---- Part C: peer-initiated close/end/detach behind every write of the library
     let basec = {
         let scen: Scenario<CObs> = Arc::new(|| Box::pin(scenario_c(None)));
